@@ -58,10 +58,33 @@ impl EditConnectionCostPlugin for InhibitConnectionPlugin {
         &mut self,
         settings: &Value,
         _config: &Config,
-        _grammar: &Grammar,
+        grammar: &Grammar,
     ) -> SudachiResult<()> {
         let settings: PluginSettings = serde_json::from_value(settings.clone())?;
         let inhibit_pairs = settings.inhibitPair;
+        let matrix = grammar.conn_matrix();
+        for (i, (left, right)) in inhibit_pairs.iter().enumerate() {
+            if *left < 0 || *left as usize >= matrix.num_left() {
+                return Err(SudachiError::InvalidDataFormat(
+                    i,
+                    format!(
+                        "inhibitPair: left id {} is outside of the connection matrix (size {})",
+                        left,
+                        matrix.num_left()
+                    ),
+                ));
+            }
+            if *right < 0 || *right as usize >= matrix.num_right() {
+                return Err(SudachiError::InvalidDataFormat(
+                    i,
+                    format!(
+                        "inhibitPair: right id {} is outside of the connection matrix (size {})",
+                        right,
+                        matrix.num_right()
+                    ),
+                ));
+            }
+        }
         self.inhibit_pairs = inhibit_pairs;
         Ok(())
     }
